@@ -1495,6 +1495,14 @@ where
         ));
     }
 
+    // The query points are powers of a two-adic generator of order `2^log_max_height`.
+    if log_max_height > F::TWO_ADICITY {
+        return Err(VerificationError::InvalidProofShape(format!(
+            "log_max_height {log_max_height} exceeds the two-adicity {} of the base field",
+            F::TWO_ADICITY
+        )));
+    }
+
     if betas.is_empty() {
         return Err(VerificationError::InvalidProofShape(
             "FRI must have at least one fold phase".to_string(),
